@@ -11,8 +11,11 @@ package c08
 import (
 	"context"
 	"encoding/binary"
+	"encoding/json"
 	"fmt"
 	"math"
+	"os"
+	"strings"
 	"sync"
 	"sync/atomic"
 	"testing"
@@ -325,6 +328,9 @@ func nontrivial(c Case) bool {
 func TestC08(t *testing.T) {
 	defer st.Emit()
 	setup(t)
+	if o := os.Getenv("VERIF_ONLY"); (o == "" || o == "idgen") && (stat.ReplayPath() == "" || strings.Contains(replayCheckName(), "idgen")) {
+		idgenCheck(t)
+	}
 	stat.Check(t, st, "delivery", stat.N(45, 1400), draw, func(c Case) *stat.Failure {
 		cls := []string{fmt.Sprintf("proxies-%d", c.NProxies)}
 		if c.SharedName {
@@ -374,4 +380,17 @@ func TestC08(t *testing.T) {
 		}
 		return f
 	})
+}
+
+// replayCheckName is the "check" field of the replay file (empty when not replaying).
+func replayCheckName() string {
+	b, err := os.ReadFile(stat.ReplayPath())
+	if err != nil {
+		return ""
+	}
+	var v struct {
+		Check string `json:"check"`
+	}
+	_ = json.Unmarshal(b, &v)
+	return v.Check
 }
